@@ -149,3 +149,49 @@ func stableBlocked(base map[int64]bool) (string, bool) {
 	}
 	return txt, true
 }
+
+// HangDump decides whether the whole process is stuck for good: two
+// censuses 300ms apart in which no goroutine (other than the caller and the
+// runtime's signal plumbing) is running, runnable, sleeping or in a syscall,
+// and every goroutine keeps its state. It returns the stacks of the
+// goroutines that are inside generated code, the cff runtime or the
+// scheduler. Used when a directive has not returned: a wall-clock timeout
+// alone is never a verdict.
+func HangDump() (string, bool) {
+	snap := func() (map[int64]string, string, bool) {
+		m := map[int64]string{}
+		var sb strings.Builder
+		for i, g := range DumpGoroutines() {
+			if i == 0 {
+				continue // the calling goroutine
+			}
+			if strings.Contains(g.Text, "os/signal.") || strings.Contains(g.Text, "runtime.ensureSigM") {
+				continue
+			}
+			st := strings.SplitN(g.State, ",", 2)[0]
+			if st == "running" || st == "runnable" || st == "syscall" || st == "sleep" {
+				return nil, "", false
+			}
+			m[g.ID] = st
+			if strings.Contains(g.Text, "vcase/") || strings.Contains(g.Text, "go.uber.org/cff") {
+				sb.WriteString(g.Text + "\n\n")
+			}
+		}
+		return m, sb.String(), true
+	}
+	a, _, ok := snap()
+	if !ok {
+		return "", false
+	}
+	time.Sleep(300 * time.Millisecond)
+	b, txt, ok := snap()
+	if !ok || len(a) != len(b) || txt == "" {
+		return "", false
+	}
+	for id, st := range a {
+		if b[id] != st {
+			return "", false
+		}
+	}
+	return txt, true
+}
